@@ -1725,6 +1725,9 @@ func c21Excluded(cs c21Case, d *c21PE) string {
 	if kind == 'a' && d.idxKind == 'e' {
 		return "C21-assoc-negative-subscript"
 	}
+	if kind == 's' && d.idxKind == 'e' {
+		return "scalar-negative-subscript" // bash: `bad array subscript`, then irregular (unset for the test operators)
+	}
 	if d.excl && d.names == 0 {
 		if d.idxKind == 'w' || d.idxKind == 'e' {
 			return "C21-indirect-subscript"
@@ -1867,5 +1870,5 @@ var c21NSh = func() int {
 		n, _ := strconv.Atoi(s)
 		return n
 	}
-	return 300
+	return 260
 }()
